@@ -79,6 +79,7 @@ type Grammar struct {
 	Seps          []string // separators (ignored-token text) used between tokens; default " "
 	HeaderImports []string // extra import lines of the file header, e.g. `"fmt"`
 	RawUsesToken  bool     // a raw action uses a $T form: the header must import the token package
+	Big           bool     // about a thousand LR(1) states: seconds per gocc run; quick tiers of C09 skip it
 	GoccOnly      bool     // only used by the checks that run gocc itself (C09, C11), not by the parser drivers
 	Optional      bool     // seeded random grammar: dropped (not failed) if gocc refuses it
 	NoCompile     bool     // header/actions are not valid Go in the harness module (text taken from elsewhere)
